@@ -767,41 +767,33 @@ Proof.
   - rewrite Eg in Hg. unfold hist_gone in Hg. apply map_eq_nil in Hg. exact Hg.
 Qed.
 
-(* ---- the channel: Send returns whenever the destination could be opened ---- *)
-Lemma wl_never_blocks : forall es w,
-  wl_alive w = true -> wl_blocked w = false -> ginv (wl_rf w) ->
-  exists w', wl_run w es = Some w' /\ wl_alive w' = true /\ wl_blocked w' = false.
+(* ---- the channel: every request is received, whatever the events ---- *)
+Lemma wl_run_total : forall es w,
+  ginv (wl_rf w) -> exists w', wl_run w es = Some w' /\ ginv (wl_rf w').
 Proof.
-  induction es as [|e es IH]; intros w Ha Hb G; cbn [wl_run]; [eauto|].
-  assert (Hfl : forall s w0, wl_alive w0 = true -> wl_blocked w0 = false -> ginv (wl_rf w0) ->
-           exists w1, wl_flush s w0 = Some w1 /\ wl_alive w1 = true /\ wl_blocked w1 = false /\ ginv (wl_rf w1)).
-  { intros s w0 Ha0 Hb0 G0. unfold wl_flush. destruct (wl_buf w0) as [|l ls] eqn:Eb; [eauto|].
+  induction es as [|e es IH]; intros w G; cbn [wl_run]; [eauto|].
+  assert (Hfl : forall s w0, ginv (wl_rf w0) -> exists w1, wl_flush s w0 = Some w1 /\ ginv (wl_rf w1)).
+  { intros s w0 G0. unfold wl_flush. destruct (wl_buf w0) as [|l ls] eqn:Eb; [eauto|].
     destruct (ginv_write (fun i => s (length (rf_hist (wl_rf w0)) + i)%nat) (wl_rf w0) (concat (l :: ls)) G0) as (st' & hs & Hr & G' & _).
-    rewrite Hr. eexists. split; [reflexivity|]. cbn. auto. }
-  unfold wl_step. rewrite Ha, Hb. cbn [negb].
-  destruct e as [s line|s].
+    rewrite Hr. eexists. split; [reflexivity|]. exact G'. }
+  unfold wl_step. destruct e as [s line|s].
   - cbn zeta. destruct (_ <? FLUSH_BYTES).
-    + apply IH; cbn; auto.
-    + destruct (Hfl s (mkWL true (wl_rf w) (wl_buf w ++ [line]) (wl_len w + zlen line) false)) as (w1 & -> & A1 & B1 & G1); cbn; auto.
-  - destruct (Hfl s w Ha Hb G) as (w1 & -> & A1 & B1 & G1). auto.
+    + apply IH. exact G.
+    + destruct (Hfl s (mkWL (wl_rf w) (wl_buf w ++ [line]) (wl_len w + zlen line)) G) as (w1 & -> & G1). apply IH, G1.
+  - destruct (Hfl s w G) as (w1 & -> & G1). apply IH, G1.
 Qed.
 
-Lemma wl_openable_never_blocks max s init es :
-  exists w, wl_run (wl_new max true s init) es = Some w /\ wl_blocked w = false.
+(* New hands out a channel exactly when max >= 1024 and the destination can be opened; on a
+   channel handed out every Send returns *)
+Lemma new_spec max openable s init :
+  match wl_new max openable s init with
+  | Some w => 1024 <= max /\ openable = true /\ forall es, exists w', wl_run w es = Some w'
+  | None => max < 1024 \/ openable = false
+  end.
 Proof.
-  destruct (wl_never_blocks es (wl_new max true s init)) as (w & H & _ & B); cbn; auto.
-  - apply ginv_open.
-  - eauto.
-Qed.
-
-(* ... and blocks for ever when it could not *)
-Lemma wl_unopenable_blocks max s init es line s' :
-  exists w, wl_run (wl_new max false s init) (ESend s' line :: es) = Some w /\ wl_blocked w = true.
-Proof.
-  cbn [wl_new wl_run wl_step wl_alive negb].
-  generalize (mkRF max 0 false [] [] [] [] []). intros st0. generalize (@nil bytes), 0.
-  induction es as [|e es IH]; intros buf len; cbn [wl_run]; [eauto|].
-  cbn [wl_step wl_alive negb]. destruct e; apply IH.
+  unfold wl_new. destruct (max <? 1024) eqn:E; [left; lia|]. destruct openable; [|right; reflexivity].
+  split; [lia|]. split; [reflexivity|]. intros es.
+  destruct (wl_run_total es (mkWL (rf_open max s init) [] 0)) as (w' & H & _); [apply ginv_open|eauto].
 Qed.
 
 (* ---- statements used by Properties.v ---- *)
@@ -848,20 +840,20 @@ Definition full_lines : Prop := forall max s init ops st rets,
   rf_moved st = [] -> rf_gone st = [] ->
   files_lines st = lines_of (init ++ written_of ops).
 
-Definition full_send : Prop := forall max openable s init es w,
-  1024 <= max -> wl_run (wl_new max openable s init) es = Some w -> wl_blocked w = false.
+Definition full_send : Prop := forall max openable s init,
+  match wl_new max openable s init with
+  | Some w => 1024 <= max /\ openable = true /\ forall es, exists w', wl_run w es = Some w'
+  | None => max < 1024 \/ openable = false
+  end.
 
 Lemma full_lines_holds : full_lines.
 Proof. unfold full_lines, files_lines. intros. eapply lines_kept; eauto. Qed.
 
-Lemma full_send_refuted : ~ full_send.
-Proof.
-  intros F. destruct (wl_unopenable_blocks 1024 0%N [] [] [123; 125; NL]%N (fun _ => 0%N)) as (w & Hr & Hb).
-  rewrite (F 1024 false 0%N [] _ w ltac:(lia) Hr) in Hb. discriminate.
-Qed.
+Lemma full_send_holds : full_send.
+Proof. unfold full_send. intros. apply new_spec. Qed.
 
-Lemma full_refuted : ~ (full_lines /\ full_send).
-Proof. intros [_ H]. exact (full_send_refuted H). Qed.
+Lemma full_holds : full_lines /\ full_send.
+Proof. split; [exact full_lines_holds|exact full_send_holds]. Qed.
 
 (* building blocks of the examples *)
 Definition mkline (c n : N) : bytes := 123%N :: repeat c (N.to_nat n) ++ [125%N; NL].  (* n + 3 bytes *)
